@@ -360,7 +360,15 @@ pub fn eval_mux(c: &MuxCase) -> Outcome {
     }
     if write_video_file {
         if c.invalid == 6 {
-            let _ = std::fs::write(&vpath, [0xffu8, 0xfe, 0x00, 0x80, 0xc3, 0x28, 0x41]);
+            if c.hex_style % 2 == 0 {
+                let _ = std::fs::write(&vpath, [0xffu8, 0xfe, 0x00, 0x80, 0xc3, 0x28, 0x41]);
+            } else {
+                // perfectly good hex lines first, then a line that is not UTF-8 (a Latin-1 note, a binary trailer)
+                let mut b = vtext.clone().into_bytes();
+                b.extend_from_slice(b"\n");
+                b.extend_from_slice(&[b'c', b'a', b'f', 0xe9, b'\n', 0xff, 0xfe, 0x00]);
+                let _ = std::fs::write(&vpath, b);
+            }
         } else {
             let _ = std::fs::write(&vpath, vtext.as_bytes());
         }
@@ -413,6 +421,11 @@ pub fn eval_mux(c: &MuxCase) -> Outcome {
         args.push(l.clone());
     }
     args.extend(extra);
+    // a third of the valid cases write to an output path that already holds a (longer) file: it must be replaced, not patched
+    if c.invalid == 0 && c.frame_size % 3 == 1 {
+        let _ = std::fs::write(&opath, vec![0xeeu8; 300_000]);
+        o.class("output_path_holds_an_older_longer_file");
+    }
     // a fifth of the valid cases read the video input from a pipe (/dev/stdin): a readable input that can be read only once
     let piped = c.invalid == 0 && c.frame_size % 5 == 3 && std::path::Path::new("/dev/stdin").exists();
     if piped {
@@ -624,6 +637,13 @@ fn write_val_input(dir: &Path, name: &str, kind: u8, len: u8) -> (Option<PathBuf
             let _ = std::fs::write(&p, t);
             true
         }
+        13 => {
+            // good hex lines, then a line that is not UTF-8
+            let mut b = hex_text(&bytes, 2 << 1 | 8).into_bytes();
+            b.extend_from_slice(&[b'\n', b'n', b'o', b't', b'e', b':', b' ', 0xe9, 0xff, b'\n']);
+            let _ = std::fs::write(&p, b);
+            false
+        }
         _ => {
             let _ = std::fs::write(&p, "+f+f");
             false
@@ -635,9 +655,9 @@ fn write_val_input(dir: &Path, name: &str, kind: u8, len: u8) -> (Option<PathBuf
 pub fn eval_validate(c: &ValCase) -> Outcome {
     let mut o = Outcome::default();
     let dir = case_dir();
-    let (vp, vv) = write_val_input(&dir, "v.hex", c.video % 13, c.len);
-    let (ap, av) = write_val_input(&dir, "a.hex", c.audio % 13, c.len);
-    let either = c.video % 13 == 12 || c.audio % 13 == 12;
+    let (vp, vv) = write_val_input(&dir, "v.hex", c.video % 14, c.len);
+    let (ap, av) = write_val_input(&dir, "a.hex", c.audio % 14, c.len);
+    let either = c.video % 14 == 12 || c.audio % 14 == 12; // kind 11 is the '+' sign case (falls into the catch-all arm)
     let mut args: Vec<String> = Vec::new();
     if c.mode % 3 == 1 {
         args.push("--json".into());
@@ -683,8 +703,8 @@ pub fn eval_validate(c: &ValCase) -> Outcome {
                     Some(v) if v == want || either => {}
                     Some(v) => o.fail(
                         "verdict",
-                        format!("verdict.got={}.want={}.video{}.audio{}", v, want, c.video % 13, c.audio % 13),
-                        format!("validate says valid={} but inputs are video kind {} / audio kind {} (expected {}); mode {}", v, c.video % 13, c.audio % 13, want, c.mode % 3),
+                        format!("verdict.got={}.want={}.video{}.audio{}", v, want, c.video % 14, c.audio % 14),
+                        format!("validate says valid={} but inputs are video kind {} / audio kind {} (expected {}); mode {}", v, c.video % 14, c.audio % 14, want, c.mode % 3),
                     ),
                     None => {
                         // a crash / error exit is "not valid"; only a problem when the inputs are valid
@@ -698,14 +718,14 @@ pub fn eval_validate(c: &ValCase) -> Outcome {
             }
         }
     }
-    o.nontrivial = c.video % 13 != 0 && c.audio % 13 != 0;
+    o.nontrivial = c.video % 14 != 0 && c.audio % 14 != 0;
     o.class(&format!("mode:{}", c.mode % 3));
     let _ = std::fs::remove_dir_all(&dir);
     o
 }
 
 fn s_validate(_: Tier) -> BoxedStrategy<ValCase> {
-    (0u8..13, 0u8..13, 0u8..3, 1u8..40).prop_map(|(video, audio, mode, len)| ValCase { video, audio, mode, len }).boxed()
+    (0u8..14, 0u8..14, 0u8..3, 1u8..40).prop_map(|(video, audio, mode, len)| ValCase { video, audio, mode, len }).boxed()
 }
 
 // ------------------------------------------------------------------------------------------
